@@ -158,8 +158,21 @@ def draw_counts(tape, kind, n_rows, n_cols, max_nnz_row, explicit_zero=False, al
     return m
 
 
+def degenerate_spectrum(m, k, rel=1e-7):
+    """True if the top-k singular subspace / vectors of m are not unique: rank < k, or two equal singular values
+    among s[0..k] (including the pair at the cut)."""
+    sv = np.linalg.svd(np.asarray(m, dtype=np.float64), compute_uv=False)
+    if sv.size == 0 or sv[0] == 0:
+        return True
+    if sv.size < k or sv[k - 1] <= rel * sv[0]:
+        return True
+    top = sv[: min(sv.size, k + 1)]
+    return bool(np.any(np.abs(np.diff(top)) <= rel * sv[0]))
+
+
 # ----------------------------------------------------------------------------- base case
 class Case:
+    arpack_degenerate = False
     rowwise = True
     tol = 1e-8
     exact = False
@@ -346,12 +359,18 @@ class BPECase(Case):
         train = [draw_string(tape, "bpe.str", alpha, 3, 20) for _ in range(tape.between("bpe.ntrain", 3, 7))]
         extra = []
         for _ in range(tape.between("bpe.nextra", 3, 8)):
-            k = tape.weighted("bpe.extra_kind", [(4, "sub"), (3, "new"), (1, "short")])
+            k = tape.weighted("bpe.extra_kind", [(4, "sub"), (3, "new"), (1, "short"), (3, "oov")])
             if k == "sub":
                 s = train[tape.draw("bpe.pick", len(train))]
                 extra.append(s[tape.draw("bpe.a", max(1, len(s) - 2)):] or s)
             elif k == "new":
                 extra.append(draw_string(tape, "bpe.str", alpha, 3, 16))
+            elif k == "oov":
+                # characters above every code seen at fit (max_char_code_) at drawn positions
+                base = list(draw_string(tape, "bpe.str", alpha, 3, 14))
+                for _ in range(tape.between("bpe.noov", 1, 3)):
+                    base[tape.draw("bpe.oovpos", len(base))] = tape.choice("bpe.oovch", ["z", "\u00e9", "\u4e2d"])
+                extra.append("".join(base))
             else:
                 extra.append(draw_string(tape, "bpe.str", alpha, 2, 3))
         c.pool = train + extra
@@ -544,16 +563,14 @@ class CFCCase(_MatrixCase):
         c.params = {"n_components": tape.choice("cfc.n", [2, 3]), "algorithm": tape.choice("cfc.alg", ["randomized", "arpack"]),
                     "random_state": tape.choice("cfc.rs", [0, 11]), "n_iter": 4}
         c.desc.update(params=dict(c.params))
-        # scipy's svds completes a rank-deficient factorisation with vectors drawn from the *global* numpy RNG,
-        # whatever random_state it is given: such cases get their own tag (see known_findings.json)
+        # ARPACK (scipy svds) is not reproducible on a degenerate spectrum -- rank below k, or equal singular values
+        # at / above the cut: it restarts from its own internal random vector, whatever random_state is given
+        # (see known_findings.json).  The adapter computes the spectrum of the drawn training matrix.
         tr = c.base[c.train_ids].toarray()
         nrm = np.sqrt((tr ** 2).sum(axis=1, keepdims=True))
         nrm[nrm == 0] = 1.0
-        rank = int(np.linalg.matrix_rank(np.sqrt(tr / nrm)))
-        if c.params["algorithm"] == "arpack" and rank < c.params["n_components"]:
-            c.name = "CountFeatureCompressionTransformer[arpack,rank<n_components]"
-            c.desc["family"] = c.name
-        c.desc["train_rank"] = rank
+        c.arpack_degenerate = c.params["algorithm"] == "arpack" and degenerate_spectrum(np.sqrt(tr / nrm), c.params["n_components"])
+        c.desc["arpack_degenerate_spectrum"] = c.arpack_degenerate
         return c
 
 
@@ -625,7 +642,7 @@ class WassersteinCase(Case):
         ntrain = tape.between("ot.ntrain", 5, n_rows - 1)
         c.train_ids = list(range(ntrain))
         c.metric = tape.choice("ot.metric", ["cosine", "euclidean"])
-        ref_size = tape.choice("ot.refsize", [2, 3])
+        ref_size = tape.choice("ot.refsize", [2, 3, 5])
         n_comp = tape.choice("ot.ncomp", [2, 3])
         # memory_size small enough to force block-wise fits (the scratch-file path) most of the time
         lot_dim = ref_size * c.dim
@@ -678,9 +695,14 @@ class WassersteinCase(Case):
             c.user_reference = False
             c.knobs = {}
         c.in_format = tape.weighted("ot.fmt", [(3, "csr"), (1, "dense")]) if c.input_method == "spmatrix" else c.input_method
+        if (not c.user_reference) and which in ("W-exact-spmatrix", "W-sinkhorn", "Sinkhorn"):
+            # the reference centre comes from svds(X, k=1): not unique when the two largest singular values coincide
+            tr = c.base[c.train_ids].toarray().astype(np.float64)
+            tr = tr / np.maximum(tr.sum(axis=1, keepdims=True), 1e-300)
+            c.arpack_degenerate = degenerate_spectrum(tr, 1)
         c.desc.update(params=dict(c.params), n_vectors=c.n_vec, dim=c.dim, n_rows=n_rows, ntrain=ntrain,
                       rows_per_block=rows_per_block, user_reference=c.user_reference, in_format=c.in_format,
-                      use_cachedir=c.use_cachedir)
+                      use_cachedir=c.use_cachedir, arpack_degenerate_spectrum=c.arpack_degenerate)
         return c
 
     def ctor_kwargs(self, pobjs):
@@ -856,9 +878,9 @@ class TreeCase(Case):
         c.params = {"window_radius": tape.choice("tr.radius", [1, 2, 3]),
                     "window_orientation": tape.choice("tr.orient", ["directional", "before", "after"]),
                     "kernel_function": tape.choice("tr.kernel", ["flat", "geometric"])}
-        mk = tape.weighted("tr.mask", [(3, "none"), (1, "mask")])
-        if mk == "mask":
-            c.params.update(mask_string="[M]", min_occurrences=2)
+        mk = tape.weighted("tr.mask", [(3, "none"), (1, "mask"), (1, "nullify")])
+        if mk != "none":
+            c.params.update(mask_string="[M]", min_occurrences=2, nullify_mask=(mk == "nullify"))
         c.user_dict = {f"w{i}": i for i in range(vocab)} if tape.chance("tr.userdict", 1, 3) else None
         c.desc.update(params=dict(c.params), user_token_dictionary=c.user_dict is not None, pool=len(trees))
         return c
